@@ -71,6 +71,27 @@ class PROP(Prop):
                 parts = mb.chunkings(data, rng, 1)[0]
                 cs.append(Case(cligen.cli_line("rtu", slave, [cligen.call_op(req, R=mb.rscript(parts))]),
                                {"k": "cli_" + kind, "stream": data.hex(), "slave": slave, "req": mb.show_req(req)}))
+        # client side, after an EARLIER call ended inside a reply (read error or abandoned while receiving) and left its fragment to
+        # the framing layer: a damaged frame that shares its tail and CRC with the interrupted reply (a retransmission with flipped bits
+        # in the part already seen) must still be rejected; what is handed up is a CRC-valid slice of what THIS call received
+        for _ in range(40 if tier == "quick" else 400):
+            slave = rng.randrange(1, 248)
+            req = ("RHR", rng.randrange(65536), 4)
+            rsp = ("RHR", [rng.randrange(65536) for _ in range(4)])
+            fr = mb.rtu_frame(slave, mb.spec_rsp_pdu(rsp))
+            good = mb.rtu_frame(slave, mb.spec_rsp_pdu(("RHR", [rng.randrange(65536) for _ in range(4)])))
+            for k in range(3, len(fr) - 2):
+                if tier == "quick" and rng.random() < 0.5:
+                    continue
+                b = bytearray(fr)
+                pos = rng.randrange(2, k)            # flip inside the part the first call had already received
+                b[pos] ^= 1 << rng.randrange(8)
+                dmg = bytes(b)
+                first = rng.choice([cligen.call_op(req, R=mb.rscript([fr[:k]], ["e:TimedOut"])),
+                                    cligen.call_op(req, R=mb.rscript([fr[:k]], ["p", "p"]), drop="1")])
+                data = dmg + good
+                second = cligen.call_op(req, R=mb.rscript(rng.choice([[data], [dmg, good], mb.chunkings(data, rng, 1)[0]])))
+                cs.append(Case(cligen.cli_line("rtu", slave, [first, second]), {"k": "cli_stale", "stream": data.hex(), "slave": slave, "req": mb.show_req(req), "k1": k}))
         # emitted frames
         for _ in range(300 if tier == "quick" else 3000):
             req = mb.rnd_req(rng)
@@ -137,7 +158,7 @@ class PROP(Prop):
                 return "valid frame not delivered: %s" % r[:60]
             return None
         if k.startswith("cli_"):
-            res, w = cligen.res_and_w(r)
+            res, w = cligen.res_and_w(cligen.split_results(r)[-1])
             stream = bytes.fromhex(m["stream"])
             rr = None
             if res.startswith("OK:"):
